@@ -46,6 +46,12 @@ TraceIn == { With(s, [op |-> "trace_assign", skip |-> k, n |-> NFam]) : s \in Sa
 Mult(g) == { j \in 0..(NFam - 1) : j % (2 ^ g) = 0 }
 PackShapes == UNION { { Shape(bin, bkey, bout, 5, 5, 1, ks) : bin \in Bs, bout \in Bs, ks \in FamKeys(bkey) } : bkey \in Bs }
 Pack == UNION { { With(s, [op |-> "pack", gap |-> g, slots |-> SetToSeq(S), n |-> NFam]) : s \in PackShapes, S \in (SUBSET Mult(g)) \ {{}} } : g \in 0..Log2N }
+\* streaming packer: every log_batch, presence patterns (all / none / alternating / first half / one / all but one), a second
+\* round on the same packer (stale accumulators must not leak, also when the second round has no input at all)
+Pat(kind, cnt) == [j \in 1..cnt |-> CASE kind = "all" -> 1 [] kind = "none" -> 0 [] kind = "alt" -> (j % 2) [] kind = "half" -> (IF 2 * j <= cnt THEN 1 ELSE 0)
+                                       [] kind = "one" -> (IF j = cnt THEN 1 ELSE 0) [] OTHER -> (IF j = 2 THEN 0 ELSE 1)]
+Packer == UNION { { With(s, [op |-> "packer", log_batch |-> lb, rounds |-> << Pat(k1, NFam \div (2 ^ lb)), Pat(k2, NFam \div (2 ^ lb)) >>, n |-> NFam]) :
+                      s \in PackShapes, k1 \in {"all", "alt", "half", "one", "butone"}, k2 \in {"all", "none", "alt"} } : lb \in 0..(Log2N - 1) }
 LweDims == {1, 3, NFam}
 Rank1 == { s \in Shapes : s.rin = 1 }
 LweKs == { With(s, [op |-> "lwe_keyswitch", nlwe |-> a, nlwe2 |-> b, n |-> NFam]) : s \in {x \in Rank1 : x.dsize = 1}, a \in LweDims, b \in LweDims }
@@ -58,7 +64,7 @@ GglweKs == { With(s, [op |-> "gglwe_ks", rout |-> ro, ra |-> ra, dnum_a |-> da, 
                s \in {x \in Shapes : x.bin = x.bout}, ro \in Ranks, ra \in {1, 2}, da \in {2, 3}, dr \in {1, 2, 3} }
 GglweKsOK == { d \in GglweKs : d.dnum_r <= d.dnum_a }
 GglweKsIn == { With(s, [op |-> "gglwe_ks_assign", ra |-> ra, dnum_a |-> da, dnum_r |-> da, n |-> NFam]) : s \in SameShapes, ra \in {1, 2}, da \in {2, 3} }
-Descs == GglweKsOK \cup GglweKsIn \cup Out \cup InPlace \cup AutoOut \cup AutoIn \cup TraceOut \cup TraceIn \cup Pack \cup LweKs \cup FromGlwe \cup FromLwe \cup Extract
+Descs == Packer \cup GglweKsOK \cup GglweKsIn \cup Out \cup InPlace \cup AutoOut \cup AutoIn \cup TraceOut \cup TraceIn \cup Pack \cup LweKs \cup FromGlwe \cup FromLwe \cup Extract
 
 ASSUME ndJsonSerialize(IOEnv.OUT, SetToSeq(Descs))
 ASSUME PrintT(<<"GENERATED", Cardinality(Descs)>>)
